@@ -129,7 +129,20 @@ pub fn worker(ctx: &mut Ctx) {
             for _ in 0..ncalls {
                 rep_in.evaluations += 1;
                 let a = r.pick(&corpus.sentences).clone();
-                let mut text = match r.below(7) {
+                let mut text = match r.below(8) {
+                    7 => {
+                        // one misspelling in two capitalisations, in one text or spread over two calls (whatever the
+                        // linter remembers about the first must not colour the second)
+                        let w = *r.pick(&["teh", "definately", "accomodate", "arguement", "tommorow", "recieve", "wrold"]);
+                        let mut cs = w.chars();
+                        let cap: String = cs.next().map(|f| f.to_uppercase().chain(cs).collect()).unwrap_or_default();
+                        match r.below(4) {
+                            0 => format!("{cap} is how they spell it. They spell it {w} here."),
+                            1 => format!("They spell it {w} here. {cap} is how they spell it."),
+                            2 => format!("{cap} is how they spell it."),
+                            _ => format!("They spell it {w} here."),
+                        }
+                    }
                     6 => {
                         let (a, b) = crate::c14::long_twins(&mut r, &corpus);
                         format!("{a}.\n\n{b}.")
